@@ -2,6 +2,7 @@
 //! It executes the real library, decodes text into the abstract form and logs ndjson events; TLC judges.
 
 mod api;
+mod convert;
 mod attack;
 mod fuzz;
 mod gen;
@@ -73,6 +74,7 @@ fn main() {
             }
             threads::run(&mut ctx, &cfgs)
         }
+        "convert" => convert::run(&mut ctx, &get("in", "raw.ndjson")),
         "fuzz" => fuzz::run(&mut ctx, &out, num("n", 20) as usize, num("seed", 1)),
         "history" => history::run(&mut ctx, &history::HistOpts { only: get("only", ""), scn: get("scn", ""), limit: num("n", 1_000_000) as usize, random: num("random", 0) as usize, seed: num("seed", 1) }),
         "replay" => replay::run(&mut ctx, &replay::ReplayOpts { scn: get("scn", "scn.ndjson"), limit: num("n", 1_000_000) as usize, matrix: get("matrix", "1") == "1", seed: num("seed", 1) }),
